@@ -46,7 +46,7 @@ Print Assumptions C06_roundtrip_actisense.
 
 Theorem C06_sizes : forall p,
   (produced enc_ebyte p -> length p = 13%nat) /\
-  (produced enc_usb p -> length p = 20%nat) /\
+  (produced enc_usb p -> length p = 20%nat /\ checksum p = nth 19 p 0) /\
   (produced enc_yd p -> exists body, p = body ++ [13; 10] /\
                           forallb (fun c => negb (c =? 10) && negb (c =? 13)) body = true).
 Proof. exact packet_sizes. Qed.
